@@ -25,8 +25,8 @@ ASSUMPTIONS = ['the admitted set is taken as observed through geos_within_constr
                'designs whose feasibility or discrete score entries are within 1e-9 of flipping are neither demanded nor forbidden',
                'scoring of brute-force designs uses a pristine second copy of the diagnostics code (formula anchored by C05/C06)']
 EXHAUSTIVE = {'quick': False, 'thorough': False}
-MINIMA = {'quick': {'shared_data_searches': 40, 'compared': 200, 'brute_designs': 3000, 'distinct_nontrivial': 80, 'cases_with_pruning': 8},
-          'thorough': {'shared_data_searches': 400, 'compared': 2500, 'brute_designs': 200000, 'distinct_nontrivial': 1000, 'cases_with_pruning': 100}}
+MINIMA = {'quick': {'prior_call_cases': 60, 'shared_data_searches': 40, 'compared': 200, 'brute_designs': 3000, 'distinct_nontrivial': 80, 'cases_with_pruning': 8},
+          'thorough': {'prior_call_cases': 500, 'shared_data_searches': 400, 'compared': 2500, 'brute_designs': 200000, 'distinct_nontrivial': 1000, 'cases_with_pruning': 100}}
 N = {'quick': 640, 'thorough': 4800}
 CASE_TIMEOUT = {'quick': 300, 'thorough': 1200}
 
@@ -68,12 +68,21 @@ def run_case(spec):
   G = min(G, maxg)
   focus = [None, 'budget', 'budget', 'share', 'size', 'ratio', 'volume', 'share'][spec['idx'] % 8]
   cls = 'duplicates' if spec['idx'] % 11 == 0 else ('integer' if spec['idx'] % 13 == 0 else None)
+  if cls is None and spec['idx'] % 5 == 2:
+    cls = 'marginal'           # correlations of most designs sit around min_corr (rounding of corr to 2 decimals bites)
+  if cls is None and spec['idx'] % 17 == 3:
+    cls = 'near_twins'         # a pair correlated above rho_max
   case = sl.make_case(r, g, G, focus=focus, cls=cls)
   truth = sl.Truth(case)
   counters = collections.Counter()
   violations = []
+  if cls == 'marginal':
+    case['params']['n_designs'] = r.choice([5, 10, 20, 50])
+    case['params'].pop('min_corr', None)
   shared = spec['idx'] % 4 == 1
-  rec = sl.run_search(case, 'exhaustive', interleave=(r if shared else None))
+  prior = spec['idx'] % 6 == 3
+  rec = sl.run_search(case, 'exhaustive', interleave=(r if shared else None), prior_calls=(['exhaustive', 'greedy'] if prior else None))
+  counters['prior_call_cases'] += bool(prior)
   counters['shared_data_searches'] += bool(rec.get('interleaved'))
   desc = sl.describe(case, with_frame=False)
   if not rec['outcome'].ok or rec['designs'] is None or rec['admitted'] is None:
